@@ -14,7 +14,8 @@ J2  every explored instance is replayed into the real BeliefPropagation.outside_
     or, where float ties break differently, lie in the spec rule's arg-max sets (mirror,
     synchronised with TLC's emitted sets in the same run).
     Real runs: tsdate.maximization(return_fit=True) on simulated multi-tree inputs (nodes with
-    several parents) and polytomies, both spaces: fit.posterior_mean is a grid point, ordered
+    several parents) and polytomies, each also with its non-sample node ids randomly permuted (ids
+    not in age order), both spaces: fit.posterior_mean is a grid point, ordered
     along every edge, and lies in the mirror's arg-max set computed from the real fit.inside and
     Poisson factors (relative tie tolerance 1e-9).
 """
@@ -93,11 +94,17 @@ def run(ctx):
         replay_inst(ctx, inst)
     bp.tick(ctx, "replay_shim")
     inputs = bp.corpus(ctx, 8 if q else 40, 1 if q else 8, small=q) + (bp.sparse_corpus(ctx, 40) if not q else [])
+    import random
     for k, inp in enumerate(inputs):
+        # node ids that do not follow age (added after seed C13-b: the traversal "children before parents" was
+        # ordered by child id instead of child age, which only shows when a node has a larger id than its parent)
+        ts_r, _ = bp.renumber(inp.ts, random.Random(ctx.seed + 7 * k))
         for space in bp.SPACES:
             # eps from negligible up to the order of the grid spacing (large values added after seed C13-a:
             # eps as a floor instead of an offset only matters when eps is comparable to the spacing)
-            real_run(ctx, inp.name, inp.ts, inp.mu, inp.Ne, space, (1e-8, 1e-3, 0.02 * inp.Ne, 0.3 * inp.Ne)[k % 4])
+            eps = (1e-8, 1e-3, 0.02 * inp.Ne, 0.3 * inp.Ne)[k % 4]
+            real_run(ctx, inp.name, inp.ts, inp.mu, inp.Ne, space, eps)
+            real_run(ctx, inp.name + "/renumbered", ts_r, inp.mu, inp.Ne, space, eps)
     bp.tick(ctx, "real_runs")
 
 
